@@ -5,6 +5,8 @@ Driver for C08: one operation per line on stdin, one result per line on stdout.
   unmarshal <hex>   jsonx.Unmarshal (Decoder.Decode + More), parse phase
   series <hex>      Decoder.DecodeSeries, parse phase
   strtok <hex>      strtoken.Parse
+  nest <entry> <hex> <count> <hex> <count> ...   the entry point on the segments repeated and concatenated
+  facts             the nesting limit the model runs with
   lex <hex>         the token stream the jsonx parser reads (types, positions) and the lexer's errors
 
 Answers:
@@ -56,13 +58,17 @@ def showLex (after : Res (List Tok)) : Res (List Tok × Nat × Nat) → String
   | .outOfFuel => "DIVERGE"
   | .panic => "panic"
 
-def step (_ : Unit) (line : String) : Unit × String :=
-  let out :=
-    match words line with
-    | [op, h] =>
-      match Hex.decode h with
-      | none => "bad-op"
-      | some bs =>
+/-- `<hex> <count> <hex> <count> ...`: the segments repeated and concatenated -/
+def segments : List String → Option C08.Bytes
+  | [] => some []
+  | [_] => none
+  | h :: n :: rest => do
+    let b ← Hex.decode h
+    let k ← n.toNat?
+    let r ← segments rest
+    pure ((List.replicate k b).flatten ++ r)
+
+def runOp (op : String) (bs : C08.Bytes) : String :=
         let fuel := fuelOf bs.length
         if op = "tojson" then showOutcome (toJSON Jsonx.cfg Jsonx.lexCfg fuel bs)
         else if op = "unmarshal" then showOutcome (decodeValue Jsonx.cfg Jsonx.lexCfg fuel bs)
@@ -70,6 +76,22 @@ def step (_ : Unit) (line : String) : Unit × String :=
         else if op = "strtok" then showOutcome (strtokenParse Jsonx.errMax fuel bs)
         else if op = "lex" then showLex (lexPastEof Jsonx.lexCfg fuel bs 3) (lexJsonx Jsonx.lexCfg fuel bs)
         else "bad-op"
+
+def step (_ : Unit) (line : String) : Unit × String :=
+  let out :=
+    match words line with
+    | ["facts"] =>
+      match Jsonx.depthLimit with
+      | some l => s!"depthLimit={l}"
+      | none => "depthLimit=none"
+    | [op, h] =>
+      match Hex.decode h with
+      | none => "bad-op"
+      | some bs => runOp op bs
+    | "nest" :: op :: segs =>
+      match segments segs with
+      | none => "bad-op"
+      | some bs => runOp op bs
     | _ => "bad-op"
   ((), out)
 
